@@ -84,13 +84,14 @@ func Run(r *fw.Run) {
 	ops := modedit.ModOps(r.Thorough())
 	wops := modedit.WorkOps(r.Thorough())
 	r.Bounds["depth"] = depth
-	r.Bounds["go_mod_seeds"] = len(modedit.ModSeeds)
+	modSeeds := append(append([]string{}, modedit.ModSeeds...), modedit.ModSeedsTypedOnly...)
+	r.Bounds["go_mod_seeds"] = len(modSeeds)
 	r.Bounds["go_work_seeds"] = len(modedit.WorkSeeds)
 	r.Bounds["go_mod_ops"] = len(ops)
 	r.Bounds["go_work_ops"] = len(wops)
 	r.Rule = "breadth-first search over sequences of real edit operations from every seed file up to the depth; a state is the history reaching it, deduplicated by (formatted text, typed lists incl. placeholders, Syntax liveness); invariant in every state after Cleanup on a copy: typed lists == strict parse of Format, no placeholders, live Syntax; on every (state, op): same-session result == result on a fresh parse of the formatted state. non-trivial = non-initial state"
 	r.Assume = []string{"operation arguments are valid (canonical versions, well-formed paths)", "cleanup precedes the bulk setters, as the property stipulates"}
-	modedit.Explore(r, false, modedit.ModSeeds, ops, depth, checker{})
+	modedit.Explore(r, false, modSeeds, ops, depth, checker{})
 	modedit.Explore(r, true, modedit.WorkSeeds, wops, depth+1, checker{})
 	r.Sample(modedit.Case{Work: false, SeedIdx: 6, Seed: modedit.ModSeeds[6], Hist: []modedit.Op{{Kind: "AddRetract", A: []string{"v1.1.0", "v1.1.0", "bad"}}, {Kind: "DropRetract", A: []string{"v1.1.0", "v1.1.0"}}}, Check: "state"})
 }
